@@ -169,29 +169,7 @@ func runC02(c *eng.Ctx) {
 
 	// ---- R02.3 follower append guards
 	c.Rule("R02.3", "K1")
-	if fn := c.Fn("server.(*partition).handleReplicationResponse"); fn != nil {
-		ap := eng.CallsIn(fn, cl+"CommitLog.AppendMessageSet")
-		sh := eng.CallsIn(fn, clSetI)
-		if len(ap) != 1 || len(sh) != 1 {
-			c.Unresolved("AppendMessageSet / SetHighWatermark in handleReplicationResponse")
-		} else {
-			following := eng.BoolEdges(fn, eng.LoadNamed("isFollowing", nil), true)
-			sameEpoch := eng.CmpEdges(fn, eng.LoadNamed("LeaderEpoch", nil), eng.Call(0, "server/protocol.UnmarshalReplicationResponse"), eng.EQ)
-			longEnough := eng.CmpEdges(fn, eng.Len(nil), eng.IntConst(28), eng.GT)
-			contiguous := eng.CmpEdges(fn, eng.AnyV, eng.Bin(token.ADD, eng.Call(-1, cl+"CommitLog.NewestOffset"), eng.IntConst(1)), eng.GE)
-			for name, es := range map[string][]eng.Edge{"p.isFollowing": following, "response epoch == p.LeaderEpoch": sameEpoch, "len(data) > 28": longEnough, "offset >= NewestOffset()+1": contiguous} {
-				g, w := eng.GuardedBy(fn, ap[0].(ssa.Instruction), es)
-				c.Check(g && len(es) > 0, "follower append requires "+name, c.Pos(ap[0].(ssa.Instruction)), "dominated by the edge", "replicated data is appended without "+name+" (path "+w.String()+")")
-			}
-			for name, es := range map[string][]eng.Edge{"p.isFollowing": following, "response epoch == p.LeaderEpoch": sameEpoch} {
-				g, w := eng.GuardedBy(fn, sh[0].(ssa.Instruction), es)
-				c.Check(g && len(es) > 0, "follower adopts the leader's HW only with "+name, c.Pos(sh[0].(ssa.Instruction)), "dominated by the edge", "the leader's high watermark is adopted without "+name+" (path "+w.String()+")")
-			}
-			// what is appended / adopted is what was decoded
-			c.Check(eng.Call(2, "server/protocol.UnmarshalReplicationResponse")(eng.AllArgs(ap[0].Common())[1]), "appended bytes are the decoded message data", c.Pos(ap[0].(ssa.Instruction)), "AppendMessageSet(data)", "the bytes appended are not the data part of the replication response")
-			c.Check(eng.Call(1, "server/protocol.UnmarshalReplicationResponse")(eng.AllArgs(sh[0].Common())[1]), "adopted HW is the decoded HW", c.Pos(sh[0].(ssa.Instruction)), "SetHighWatermark(hw)", "the value adopted as high watermark is not the one decoded from the response")
-		}
-	}
+	ruleFollowerAppendGuards(c)
 	c.Floor(8)
 
 	// ---- R02.4 leader side
@@ -228,7 +206,7 @@ func runC02(c *eng.Ctx) {
 	if fn := c.Fn(cl + "(*leaderEpochCache).findEpoch$1"); fn != nil {
 		ok := false
 		for _, r := range eng.Returns(fn) {
-			ok = eng.RelVal(eng.LoadNamed("leaderEpoch", nil), eng.Param("epoch"), eng.GE)(r.Results[0])
+			ok = eng.RelVal(eng.LoadNamed("leaderEpoch", nil), eng.Param("epoch"), eng.GE)(eng.RetVals(r)[0])
 		}
 		c.Check(ok, "findEpoch finds the first epoch >= the requested one", p.Pos(fn.Pos()), "epochOffsets[i].leaderEpoch >= epoch", "findEpoch's search predicate is not leaderEpoch >= epoch")
 	}
@@ -309,6 +287,7 @@ func runC02(c *eng.Ctx) {
 	c.Rule("R02.7", "K1")
 	ruleHealthCheckPeriod(c)
 	ruleRejoiningReplicaHoldsEverythingCommitted(c)
+	ruleISROpsAlwaysApply(c)
 	if fn := c.Fn("server.(*replicator).tick"); fn != nil {
 		inISR := func(pol bool) []eng.Edge { return eng.BoolEdges(fn, eng.Call(-1, "server.partition.inISR"), pol) }
 		isLagCmp := func(v ssa.Value) bool {
